@@ -177,29 +177,9 @@ theorem nodeKey_ne_pointKey (id : BitVec 64) (s s' : Byte) (u : Bytes) (hu : u.l
     Keys.NodeKey id s ≠ Keys.PointKey u s' := by
   rw [nodeKey_eq, pointKey_eq u s' hu]; simp
 
-theorem documentKey_eq (id : BitVec 64) : Keys.documentKey id = 0x64#8 :: le64 id := by
-  simp [Keys.documentKey, Go.zeros, Go.putLE64, blit, le64, List.replicate]
-
-theorem documentKey_roundtrip (id : BitVec 64) :
-    Keys.docCacheItem_IdFromKey (Keys.documentKey id) = (id, true) := by
-  rw [documentKey_eq]
-  simp [Keys.docCacheItem_IdFromKey, Go.idx, bget, Go.sliceFrom, Go.getLE64, le64]
-  exact ofLE64_le64 id
-
-theorem documentKey_inj (id id' : BitVec 64) : Keys.documentKey id = Keys.documentKey id' ↔ id = id' := by
-  rw [documentKey_eq, documentKey_eq]; simp [le64_inj]
-
-theorem termKey_roundtrip (t : Bytes) : Keys.setCacheItem_IdFromKey (Keys.termKey t) = (t, true) := by
-  simp [Keys.setCacheItem_IdFromKey, Keys.termKey, Go.idx, bget, Go.slice]
-
-theorem termKey_inj (t t' : Bytes) : Keys.termKey t = Keys.termKey t' ↔ t = t' := by
-  simp [Keys.termKey]
-
-/-- in the text bucket a term key is never taken for a document key and vice versa -/
-theorem termKey_not_document (t : Bytes) : (Keys.docCacheItem_IdFromKey (Keys.termKey t)).2 = false := by
-  simp [Keys.docCacheItem_IdFromKey, Keys.termKey, Go.idx, bget]
-theorem documentKey_not_term (id : BitVec 64) : (Keys.setCacheItem_IdFromKey (Keys.documentKey id)).2 = false := by
-  rw [documentKey_eq]; simp [Keys.setCacheItem_IdFromKey, Go.idx, bget, le64]
+/-! (the keys of the text index bucket - `documentKey`, `termKey` and their decoders in shard/index/text/text.go - are in
+`TextKeys.lean`: C01 / C02 / C04 import THIS module for the sortable and node / point key theorems, and a change of the text
+index's key functions must not stop their builds - notes/CROSSALARM.md) -/
 
 /-! ### value encodings -/
 
